@@ -124,6 +124,22 @@ def script_of(hist, rng, nmax=24, threads=(1, 2, 4), ienv=None, scale_for_equil=
                 "0.0" if symmetric else rng.choice(["1.0", "1.0", "0.5", "0.1"]), " sym=1" if symmetric else ""))
         elif c["call"] == "destroy":
             lines.append("destroy")
+        elif c["call"] == "sinit":
+            # first factorization of a session with partial pivoting; a re-factorization that asks for the old row order uses u = 1/2,
+            # so that with unchanged values every old pivot provably still passes the threshold (SluApi!ObsSFactor)
+            u = "1.0" if not c["refact"] else ("0.5" if c["usepr"] else rng.choice(["1.0", "0.5", "0.1"]))
+            lines.append("sinit P=%d refact=%d usepr=%d lwork=%d u=%s" % (rng.choice(threads), int(c["refact"]), int(c["usepr"]), {"sys": 0, "user": 16 << 20}[c["lw"]], u))
+        elif c["call"] == "sfactor":
+            lines.append("sfactor")
+        elif c["call"] == "ssolve":
+            nr, pd, _ = rhs_shape(rng.choice([1, 1, 2, 3]), rng.choice([0, 0, 2]), 0)
+            lines.append("ssolve trans=%s nrhs=%d pad=%d seed=%d" % (c["trans"], nr, pd, rng.randrange(1, 10 ** 6)))
+        elif c["call"] == "scon":
+            lines.append("scon norm=%s" % c["norm"])
+        elif c["call"] == "sdropac":
+            lines.append("sdropac")
+        elif c["call"] == "sfinal":
+            lines.append("sfinal")
     return "\n".join(lines) + "\n"
 
 
@@ -200,6 +216,38 @@ def diagnose(r):
             chk("B unchanged on singular", r["Bunch"] == 1)
         else:
             bad.append("info=%d" % r["info"])
+    elif r.get("call") == "sinit":
+        chk("xerbla", r["xerbla"] == 0); chk("A unchanged", r["Aunch"] == 1); chk("perm_c bijection", r["permc"] == 1)
+        chk("AC is the column-permuted view of A", r["acok"] == 1); chk("etree postordered / ordering changed by a postorder only", r["etpost"] == 1 and r["postonly"] == 1 and (not r["refact"] or r["permcunch"] == 1))
+        chk("init touched perm_r / options", r["permrunch"] == 1 and r["optsok"] == 1)
+        chk("init retains memory", r["dlive"] == (3 if r["refact"] else 6))
+    elif r.get("call") == "sfactor":
+        chk("xerbla", r["xerbla"] == 0); chk("threads", r["thr1"] == r["thr0"]); chk("A unchanged", r["Aunch"] == 1); chk("perm_c bijection", r["permcunch"] == 1)
+        chk("guard zones of the workspace", r["guard"] == 1)
+        if r["refact"]:
+            chk("refact retains memory", r["live1"] == r["live0"])
+        if r["info"] == 0:
+            chk("perm_r bijection", r["permr"] == 1); chk("factor structure", r["extract"] == 0); chk("reconstruction bound", 0 <= r["recon"] <= 1000)
+            chk("multiplier bound", r["maxl"] >= 0 and r["maxl"] * r["u1000"] <= 1001000)
+            if r["lwmode"] == 1:
+                chk("factors inside workspace", r["inside"] == 1)
+            if r["usepr"] and r["u1000"] <= 500:
+                chk("pivot reuse not honoured", r["permrunch"] == 1 and r["useprkept"] == 1)
+        elif not (1 <= r["info"] <= r["n"]):
+            bad.append("info=%d" % r["info"])
+    elif r.get("call") == "ssolve":
+        chk("xerbla", r["xerbla"] == 0); chk("threads", r["thr1"] == r["thr0"]); chk("solve info", r["info"] == 0)
+        chk("solve modified A / L / U / permutations", r["Aunch"] == 1 and r["Lunch"] == 1 and r["permunch"] == 1); chk("B padding", r["padok"] == 1)
+        chk("solve retains memory", r["live1"] == r["live0"])
+        if r["nrhs"] > 0:
+            chk("residual bound", 0 <= r["resid"] <= 1000)
+    elif r.get("call") == "scon":
+        chk("xerbla", r["xerbla"] == 0); chk("solve info", r["info"] == 0); chk("solve modified A / L / U / permutations", r["Lunch"] == 1)
+        chk("solve retains memory", r["live1"] == r["live0"])
+        if r["rclo"] != -2:
+            chk("rcond sandwich", 0 <= r["rclo"] <= 1100 and 0 <= r["rchi"] <= 1100)
+    elif r.get("call") in ("sdropac", "sfinal"):
+        bad.append("session release does not return the session's blocks")
     elif r.get("call") == "gssvx":
         chk("xerbla", r["xerbla"] == 0); chk("threads", r["thr1"] == r["thr0"]); chk("A scaling relation", r["Aok"] == 1)
         chk("B scaling relation", r["Bok"] == 1); chk("perm_c bijection", r["permc"] == 1)
